@@ -32,4 +32,19 @@ let () =
       let st = List.map bytes_of_hex (if store = "" then [] else split_on ',' store) in
       let n = n_of_dec pnum in
       Printf.printf "%s\t%s %s\n" id (dec_of_n (merged_exists n ks st)) (dec_of_n (merged_del n ks st))
+    | id :: "P" :: pnum :: kvl :: _ ->
+      let fl = List.map bytes_of_hex (if kvl = "" then [] else split_on ',' kvl) in
+      let rec pairs = function a :: b :: r -> (a, b) :: pairs r | _ -> [] in
+      let l = pairs fl in
+      let n = n_of_dec pnum in
+      let keys = List.sort_uniq compare (List.map (fun (k, _) -> hex_of_bytes k) l) in
+      let reply = plset_reply (fun _ -> true) (group_kvs n l) in
+      let vals = List.map (fun hk ->
+          let k = bytes_of_hex hk in
+          hk ^ "=" ^ (match plset_get n l k with None -> "-" | Some v -> hex_of_bytes v)) keys in
+      Printf.printf "%s\t%d %s\n" id (List.length (List.filter (fun b -> b) reply)) (String.concat "," vals)
+    | id :: "R" :: pnum :: missing :: key :: _ ->
+      let k = bytes_of_hex key in
+      let p = part_of (route_key k) (n_of_dec pnum) in
+      Printf.printf "%s\t%s\n" id (if int_of_n p = int_of_string missing then "rejected" else "ok")
     | _ -> ())
